@@ -226,6 +226,11 @@ fn punct_valid(m: &FormatModel, point: u8, exp: u8) -> bool {
                 return false;
             }
         }
+        // the exponent character is matched without regard to case unless the format is case-sensitive: a digit
+        // separator that is the same letter in the other case is the same character to the parser, not a distinct one
+        if m.digit_separator != 0 && !m.case_sensitive_exponent && m.digit_separator.eq_ignore_ascii_case(&exp) {
+            return false;
+        }
     }
     true
 }
@@ -699,8 +704,18 @@ pub fn run(ctx: &Ctx, rep: &mut Report) {
         move || {
             let vfe = vfe.clone();
             let b = || prop_oneof![Just(b'.'), Just(b'e'), Just(b','), Just(b'_'), Just(b'x'), Just(b'h'), Just(b'1'), Just(b'a'), Just(b'+'), Just(b'-'), Just(0u8), Just(0x80u8), Just(b'^'), any::<u8>()];
-            (any::<u16>(), b(), b(), prop_oneof![Just(b"1.5e3".to_vec()), Just(b"0".to_vec()), Just(b"".to_vec()), Just(b"nan".to_vec()), proptest::collection::vec(any::<u8>(), 0..8)])
-                .prop_map(move |(ei, point, exp, input)| PunctCase { entry: vfe[gen::pick(ei, vfe.len())], point, exp, input })
+            (any::<u16>(), b(), b(), prop_oneof![Just(b"1.5e3".to_vec()), Just(b"0".to_vec()), Just(b"".to_vec()), Just(b"nan".to_vec()), proptest::collection::vec(any::<u8>(), 0..8)], any::<u8>())
+                .prop_map(move |(ei, point, mut exp, input, sel)| {
+                    let entry = vfe[gen::pick(ei, vfe.len())];
+                    // the format's own punctuation in the other letter case
+                    let m = &cat().models[entry];
+                    let own = [m.digit_separator, m.base_prefix, m.base_suffix];
+                    let c = own[(sel % 3) as usize];
+                    if sel < 96 && c.is_ascii_alphabetic() {
+                        exp = c ^ 0x20;
+                    }
+                    PunctCase { entry, point, exp, input }
+                })
                 .boxed()
         },
         punct_json,
